@@ -175,6 +175,22 @@ let () =
                             Printf.sprintf "%d:%d:%d:%d:%d:[%s]" (int_of_n p.p_blk) (int_of_n p.p_bbo) (int_of_n p.p_pbo) (int_of_n p.p_size) (int_of_n p.p_cnt)
                               (String.concat "/" (List.map (fun i -> Printf.sprintf "%d.%d.%d.%d" (int_of_n i.i_hash) (int_of_n i.i_seq) (int_of_n i.i_off) (int_of_n i.i_len)) p.p_inds))) ps in
                         Printf.sprintf "blocks=%d parts=%s" (int_of_n nb) (String.concat ";" ps')))
+          | "recover" ->
+              (* pages=off:h.s.o.l/h.s.o.l,off:...   what the block holds; the extracted scanner + regress check *)
+              let b = n_of_int (geti kv "B") and i = n_of_int (geti kv "I") in
+              let pages = List.map (fun pg ->
+                  match split_on ':' pg with
+                  | [o; es] ->
+                      (n_of_int (int_of_string o),
+                       List.map (fun e -> match split_on '.' e with
+                           | [h; s; o2; l] -> { i_hash = n_of_dec h; i_seq = n_of_dec s; i_off = n_of_dec o2; i_len = n_of_dec l }
+                           | _ -> failwith "idx") (List.filter (fun x -> x <> "") (split_on '/' es)))
+                  | [o] -> (n_of_int (int_of_string o), [])
+                  | _ -> failwith "page") (List.filter (fun x -> x <> "") (split_on ',' (gets_d kv "pages" ""))) in
+              let stale o = List.assoc_opt o pages in
+              let infos = recover_block b i (rd [] stale) in
+              Printf.sprintf "infos=%s" (String.concat "/" (List.map (fun x ->
+                  Printf.sprintf "%s.%s.%s.%s" (dec_of_n x.n_hash) (dec_of_n x.n_seq) (dec_of_n x.n_off) (dec_of_n x.n_len)) infos))
           | "tombnew" ->
               tomb_pages := geti kv "pages"; tomb_next := 1;
               tomb_bug := (gets_d kv "bug_tail" "0" = "1");
